@@ -113,6 +113,33 @@ def run(ctx, model):
                               "newline translation is changed: the text would differ from the file's content as a string",
                               where.node.lineno, inp=name, detail=str(o))
 
+    # R-READER at scale: a reader that passes a size / hint to the file object may behave differently once the
+    # file is longer than that size.  The sizes the reader used are recorded by the abstract file; the run is
+    # repeated on a multi-line content witness longer than three times the largest of them (and of every integer
+    # constant in the reader's source); `re` must still receive the whole content.
+    from ..consts import interesting_ints
+    r0 = MM.run_method(model, "get_matches", [], {"source": PATH, "is_path": True}, matches_for=lambda s: [])
+    sizes = [n for fo in r0[2].files for n in fo.sizes] + sorted(interesting_ints([rf] if rf else [meths["get_matches"]]))
+    scale = 3 * max(sizes + [100]) + 7
+    line = "".join(chr(0x3b1 + i % 24) for i in range(36)) + "\n"
+    long_text = (line * (scale // len(line) + 2))[:-1]
+    for name in ("get_matches", "has_match", "replace"):
+        if name not in meths:
+            continue
+        kw = {p: (PATH if p == "source" else True if p == "is_path" else "<repl>" if p == "repl" else 0) for p in meths[name].params
+              if p in ("source", "is_path", "repl", "count")}
+        hooks_setup = lambda o, h: setattr(h, "file_text", long_text)
+        r = MM.run_method(model, name, [], kw, matches_for=lambda s: [], obj_setup=hooks_setup)
+        seen = [c.get("subject") for c in r[2].calls if c.get("subject") is not None]
+        where = rf or meths[name]
+        inp = f"{name}(path) on a {len(long_text)}-character, {long_text.count(chr(10)) + 1}-line file (reader sizes seen: {sorted(set(sizes))[:6]})"
+        ctx.instance("R-READER", key=f"scale:{name}", sample=f"{inp}: re received {[len(x) for x in seen]} characters")
+        if r[0] == "raise" or not seen or any(x != long_text for x in seen):
+            got = seen[0] if seen else ""
+            ctx.violation("R-READER", where.relpath, where.short, "<content read>",
+                          "the reader does not return the whole content of a long multi-line file", where.node.lineno,
+                          inp=inp, detail=f"re received {len(got)} of {len(long_text)} characters" if r[0] != "raise" else f"raises {r[1].name}")
+
     # ---------------- R-WINDOW
     f = model.method(PRE, "Pregex", "iterate_matches_with_context")
     n = len(TEXT)
